@@ -693,6 +693,9 @@ def sseq_sorted(it, src: SSeq, key, reverse):
     perm = L.fresh("perm", L.NSeq)
     it.assume(z3.ForAll([a], z3.Implies(z3.And(0 <= a, a < n), z3.And(src.lo <= perm[a], perm[a] < src.hi, arr[a] == src.arr[perm[a]]))))
     it.assume(z3.ForAll([a, b], z3.Implies(z3.And(0 <= a, a < b, b < n), perm[a] != perm[b])))
+    inv = L.fresh("invperm", L.NSeq)     # and its inverse: source[k] = result[inv[k]]
+    it.assume(z3.ForAll([a], z3.Implies(z3.And(src.lo <= a, a < src.hi), z3.And(0 <= inv[a], inv[a] < n, arr[inv[a]] == src.arr[a], perm[inv[a]] == a))))
+    it.assume(z3.ForAll([a], z3.Implies(z3.And(0 <= a, a < n), inv[perm[a]] == a)))      # (closes the instantiation chain perm/inv)
     it.assume(z3.Implies(n > 0, z3.And(src.lo <= perm[0], perm[0] < src.hi, arr[0] == src.arr[perm[0]])))
     it.assume(L.empty_range(arr, z3.IntVal(0), z3.IntVal(0)))
     res.perm = perm
@@ -1355,7 +1358,15 @@ def modelled_module(it: Interp, name):
         return m
     if name == "math":
         m = ModuleV("math")
-        m.attrs.update({"floor": Builtin("math.floor", np_floor), "ceil": Builtin("math.ceil", np_ceil), "inf": INF})
+        def isclose(it, a, k):
+            it.trust("math.isclose(a, b): |a-b| <= max(rel_tol*max(|a|,|b|), abs_tol) with the default tolerances")
+            x, y = term_of(a[0]), term_of(a[1])
+            rel = k.get("rel_tol", Fraction(1, 10**9))
+            ab = k.get("abs_tol", 0)
+            absf = lambda t: z3.If(t >= 0, t, -t)
+            mx = z3.If(absf(x) >= absf(y), absf(x), absf(y))
+            return SV(z3.Or(absf(x - y) <= L.to_z3(norm_num(rel)) * mx, absf(x - y) <= L.to_z3(norm_num(ab))))
+        m.attrs.update({"floor": Builtin("math.floor", np_floor), "ceil": Builtin("math.ceil", np_ceil), "inf": INF, "isclose": Builtin("math.isclose", isclose)})
         return m
     if name == "sys":
         m = ModuleV("sys")
